@@ -703,16 +703,50 @@ def gen_c_function(rng):
 # ----------------------------------------------------------------------------------------------
 # the check
 # ----------------------------------------------------------------------------------------------
+def pdriver(ctx, reqs, chunks=4):
+    """ctx.driver over several driver processes in parallel (replies in request order)"""
+    if len(reqs) < 40:
+        return ctx.driver("C23", reqs) if reqs else []
+    from concurrent.futures import ThreadPoolExecutor
+    k = (len(reqs) + chunks - 1) // chunks
+    parts = [reqs[i:i + k] for i in range(0, len(reqs), k)]
+    with ThreadPoolExecutor(len(parts)) as ex:
+        outs = list(ex.map(lambda part: ctx.driver("C23", part), parts))
+    return [r for o in outs for r in o]
+
+
 class Case:
     def __init__(self, origin, cfg, cap, module=None, extra=None):
         self.origin, self.cfg, self.cap, self.module, self.extra = origin, cfg, cap, module, extra or {}
         self.cls = failure_class(cfg)
 
 
+class ExecTimeout(Exception):
+    pass
+
+
+@contextlib.contextmanager
+def time_limit(seconds):
+    """interrupt a (possibly non-terminating) execution of generated code; main thread only"""
+    import signal
+
+    def handler(signum, frame):
+        raise ExecTimeout()
+
+    old = signal.signal(signal.SIGALRM, handler)
+    signal.setitimer(signal.ITIMER_REAL, seconds)
+    try:
+        yield
+    finally:
+        signal.setitimer(signal.ITIMER_REAL, 0)
+        signal.signal(signal.SIGALRM, old)
+
+
 def run_wasm(cap, x):
     from ppci.wasm import instantiate
     inst = instantiate(cap.wasm, target="python")
-    return inst.exports.run(x)
+    with time_limit(5):
+        return inst.exports.run(x)
 
 
 def run_ir(module, x):
@@ -721,7 +755,8 @@ def run_ir(module, x):
     ir_to_python([module], f)
     ns = {}
     exec(f.getvalue(), ns)
-    return ns["run"](x)
+    with time_limit(5):
+        return ns["run"](x)
 
 
 def bits_to_x(bits):
@@ -762,7 +797,7 @@ def handle_cases(ctx, cases, extra=None):
         reqs.append("v " + cfg_tokens(c.cfg) + " | " + " ".join(cap.shape) + " | " + " ".join(cap.tokens))
         owners.append(("v", c))
     nx = len(extra[0]) if extra else 0
-    replies = ctx.driver("C23", reqs + (extra[0] if extra else [])) if (reqs or nx) else []
+    replies = pdriver(ctx, reqs + (extra[0] if extra else []))
     if extra:
         extra[1](replies[len(reqs):])
         replies = replies[:len(reqs)]
@@ -796,12 +831,12 @@ def handle_cases(ctx, cases, extra=None):
         def fuel(c):
             return min(3000, 150 + 3 * len(c.cap.tokens))
         dreq = ["d " + cfg_tokens(c.cfg) + " | " + " ".join(c.cap.tokens) + f" | 6 14 {fuel(c)} 0" for c in rejected]
-        drep = ctx.driver("C23", dreq)
+        drep = pdriver(ctx, dreq)
         again = [i for i, rp in enumerate(drep) if not rp.startswith("ok differ")]
         if again:
             dreq2 = ["d " + cfg_tokens(rejected[i].cfg) + " | " + " ".join(rejected[i].cap.tokens) + f" | 11 48 {fuel(rejected[i])} 300"
                      for i in again]
-            for i, rp in zip(again, ctx.driver("C23", dreq2)):
+            for i, rp in zip(again, pdriver(ctx, dreq2)):
                 drep[i], dreq[i] = rp, dreq2[again.index(i)]
         for c, rq, rp in zip(rejected, dreq, drep):
             case = {"origin": c.origin, "cfg": cfg_tokens(c.cfg), "class": c.cls, "skeleton": " ".join(c.cap.tokens),
@@ -1004,18 +1039,28 @@ def c_exec(ctx, cases, limit):
             continue
         for _ in range(3):
             args = [ctx.rng.randint(-3, 12) for _ in range(3)]
-            try:
-                r_ir = ns["f"](*args)
-                r_w = inst.exports.f(*args)
-            except Exception as e:  # noqa
-                ctx.count("c_exec_error_" + type(e).__name__)
-                continue
+            res = {}
+            for side, fn in (("ir", ns["f"]), ("wasm", inst.exports.f)):
+                try:
+                    with time_limit(5):
+                        res[side] = ("ok", fn(*args))
+                except ExecTimeout:
+                    res[side] = ("timeout", None)
+                except Exception as e:  # noqa
+                    res[side] = ("exc", type(e).__name__)
             ctx.count("eval_c_exec")
-            if r_ir != r_w:
+            case = {"origin": c.origin, "source": c.extra["source"], "args": args}
+            if res["ir"][0] != "ok":
+                # the reference side itself failed (ir_to_python / optimiser): not a C23 verdict, counted and noted
+                ctx.count(f"c_exec_reference_{res['ir'][0]}")
+                ctx.note(f"ir_to_python reference {res['ir']} for f{tuple(args)} ({c.origin}): {c.extra['source'][:300]}")
+                break
+            if res["wasm"] != res["ir"]:
                 ctx.fail("execution:wasm-result-differs:accepted-structure",
-                         f"f{tuple(args)} = {r_w} on ppci's wasm runtime but {r_ir} under ir_to_python although the control "
-                         f"skeleton was validated (expression-level translation, C22 runtime or ir_to_python fault)",
-                         {"origin": c.origin, "source": c.extra["source"], "args": args}, wasm=r_w, ir=r_ir)
+                         f"f{tuple(args)} -> {res['wasm']} on ppci's wasm runtime but {res['ir']} under ir_to_python although the "
+                         f"control skeleton was validated (expression-level translation, C22 runtime or ir_to_python fault)",
+                         case, wasm=res["wasm"], ir=res["ir"])
+                break
 
 
 def capture_cfg(origin, cfg):
@@ -1183,14 +1228,14 @@ def check(ctx):
     # 3a. small structured programs: the fragment the relooper handles (class S, <= SMALL blocks) is where a
     #     regression shows up under a signature that is not a known finding
     seen = set()
-    for _ in range(4000 if ctx.thorough else 400):
+    for _ in range(3000 if ctx.thorough else 400):
         cfg = gen_structured(ctx.rng, budget=ctx.rng.randint(1, 3))
         for c in (cfg, thread_jumps(cfg)):
             if len(c) <= SMALL and tuple(c) not in seen and classify(c) == "S":
                 seen.add(tuple(c))
                 cases.append(capture_cfg("small-structured", c))
     # 3b. structured programs (as laid out by a C compiler, and after jump threading)
-    for _ in range(500 if ctx.thorough else 60):
+    for _ in range(400 if ctx.thorough else 60):
         cfg = gen_structured(ctx.rng)
         cases.append(capture_cfg("structured", cfg))
         t = thread_jumps(cfg)
@@ -1198,11 +1243,11 @@ def check(ctx):
             cases.append(capture_cfg("structured-threaded", t))
     lap("structured")
     # 4. random larger CFGs (reducible and irreducible)
-    for _ in range(1500 if ctx.thorough else 100):
+    for _ in range(1000 if ctx.thorough else 100):
         cases.append(capture_cfg("random", gen_random(ctx.rng)))
     lap("random")
     # 5. C functions through the front-end, with and without optimisation
-    cases += c_cases(ctx, 150 if ctx.thorough else 20)
+    cases += c_cases(ctx, 120 if ctx.thorough else 20)
     lap("c")
     # 7. data segments (second sliver); its driver requests ride along with the validation batch
     ds = dataseg_check(ctx, 200 if ctx.thorough else 25)
